@@ -283,6 +283,13 @@ def final_dump(sc, outs):
     return None, []
 
 
+def first_dump(sc, outs):
+    for line, out in zip(sc, outs):
+        if line.split(" ")[1:2] == ["dump"]:
+            return parse_dump(out)
+    return None, []
+
+
 SAN_IGNORE_KINDS = ("ubsan:applying zero offset to null pointer",)
 
 
